@@ -17,14 +17,8 @@ from common import *
 from diffrun import read_lines, ddmin
 
 
-INCLUDE_F33 = os.environ.get("VERIF_C17_INCLUDE_BINDING_RESTRICT") == "1"
-
-
 def _classify(op, c, m):
     if op.startswith(("load ", "loadbind ")) and c == "load-failed":
-        return "benign"
-    # finding F33 (load with RESTRICT_TO_*BINDING leaves the caches invalid): excluded from the verdict behind this switch
-    if op.startswith("observe after-load-binding") and c == "seen" and m.startswith("violates") and not INCLUDE_F33:
         return "benign"
     return "diff"
 
@@ -35,10 +29,10 @@ class ReadonlyEngine(DiffEngine):
                          sizes={"quick": (16, 5000), "thorough": (48, 40000)},
                          distinct_key=lambda op, c: " ".join(op.split()[:2]) + "|" + " ".join(op.split()[4:]) + "|" + c,
                          rule="episodes = one topology (12 synthetic descriptions / the bundled XML files, KEEP_ALL or KEEP_STRUCTURE "
-                              "filters) + a modification history (distances over NUMA/PU/Core/Package, user and standard memattrs with "
+                              "filters; 10 % of the loads with IS_THISSYSTEM + RESTRICT_TO_CPUBINDING / _MEMBINDING, 12 % with NO_DISTANCES / NO_MEMATTRS / NO_CPUKINDS combinations) + a modification history (distances over NUMA/PU/Core/Package, user and standard memattrs with "
                               "cpuset / object initiators, cpukinds, restrict with REMOVE_CPULESS / ADAPT_MISC, groups, misc) + "
                               "hwloc_topology_refresh; the topology is copied with hwloc__topology_dup into a bump arena that is then "
-                              "mprotect(PROT_READ); all 31 consulting entries (every memattr query on every attribute) run on the "
+                              "mprotect(PROT_READ); all 35 consulting entries (every memattr query on every attribute) run on the "
                               "refreshed copy, a random mix on unrefreshed / partially validated copies (negative control) and on the "
                               "writable unrefreshed original (flag transitions); hwloc_components_init/fini sequences from empty and "
                               "non-empty registries; distinct = distinct (entry, cache state, observed result)",
@@ -81,11 +75,6 @@ class ReadonlyEngine(DiffEngine):
             if dist.get("ro", 0) == 0:
                 res["problems"].append({"what": "no consulting call completed on a read-only copy", "seed": seed,
                                         "replay": "distribution: %r\n" % dist})
-        if dist.get("bind_invalid", 0):
-            res["known_hits"] = ["F33 hwloc_topology_load with HWLOC_TOPOLOGY_FLAG_RESTRICT_TO_CPUBINDING/_MEMBINDING leaves distances / "
-                                 "memattr caches invalid (restrict runs after load's refresh): %d of %d such loads "
-                                 "(excluded from the verdict; VERIF_C17_INCLUDE_BINDING_RESTRICT=1 includes them)"
-                                 % (dist["bind_invalid"], dist.get("loadbind", 0))]
         return res
 
 
